@@ -212,7 +212,15 @@ class BeliefPropagationDecoder(BaseBlockDecoder[Union[LinearBlockCodeEncoder, LD
         self.n_c = self.H.size(0)
         self.prep_edge_ind()
         if not self.standard:
-            self.idx_mess_t = torch.where(self.G.sum(0) == 1)[0]
+            # Message positions: for every row i of G the first column equal to the i-th unit
+            # vector (G may contain further weight-1 columns, e.g. in its parity part)
+            column_weights = self.G.sum(0)
+            idx_mess = []
+            for i in range(self.G.size(0)):
+                unit_columns = torch.where((self.G[i] == 1) & (column_weights == 1))[0]
+                if unit_columns.numel() > 0:
+                    idx_mess.append(int(unit_columns[0]))
+            self.idx_mess_t = torch.tensor(idx_mess, dtype=torch.long)
 
     def prep_edge_ind(self):
         """Prepare edge indices and map structures for the Tanner graph.
